@@ -19,7 +19,7 @@ RULE = ('case = <=8 rows of Src (group columns G Text / H Int, sort columns A Nu
         'absent/str/tuple of 1-2, order_by None/str/-str/tuple/with id/with manualSort, RANK order asc/desc/absent) + '
         '1-4 Probe rows with probe values equal to existing keys / between / outside the range + 1-5 find.<op> columns '
         '(lookupRecords with optional key filter, order_by/sort_by over 1-2 columns incl. "-", 1..n probe values, '
-        'find/_find) + up to 5 edit bundles (rows added/removed/changed/moved, probe values changed). The oracle runs '
+        'find/_find, searched directly or through a record set stored in an Any / RefList column) + up to 5 edit bundles (rows added/removed/changed/moved, probe values changed). The oracle runs '
         'after the build and after every bundle. Non-trivial = a judged search/neighbour whose ordered set has a '
         'duplicate sort key, or whose probe equals an existing key or lies outside the range; distinct by case hash.')
 ORACLE = ('rows of fetch_table(Src) are filtered by the key / group_by values and ordered with the comparator of '
@@ -32,9 +32,11 @@ ASSUMPTIONS = ['no NaN; Date/Ref/list columns are not used as sort or group colu
                'the number of probe values never exceeds the number of columns the caller named in order_by/sort_by',
                'find.* is only called on lookups with at least one named sort column (find on an unsorted lookup raises '
                'a documented ValueError)',
-               'a bundle that the engine rejects ends the case']
-BUDGET = {'quick': dict(examples=1600, shards=16, max_seconds=55),
-          'thorough': dict(examples=26000, shards=16, max_seconds=560)}
+               'a bundle that the engine rejects ends the case',
+               'order_by="id" alone is generated as a rare labelled class (order:id-only) for PREVIOUS/NEXT/RANK; it '
+               'raises ValueError and is listed in known_findings.d/C14.json']
+BUDGET = {'quick': dict(examples=2400, shards=16, max_seconds=50),
+          'thorough': dict(examples=40000, shards=16, max_seconds=560)}
 SHRINK_BUDGET = {'quick': 120, 'thorough': 400}
 
 SRC_DATA = [('G', 'Text'), ('H', 'Int'), ('A', 'Numeric'), ('B', 'Text'), ('X', 'Numeric')]
@@ -275,7 +277,7 @@ class Checker(object):
         if size >= 2 and (prev_id == 0 or next_id == 0):
           out.cls('record-at-end-of-group')
         got = cells[ri]
-        if got != exp or type(got) is bool:
+        if got != exp:
           self.report_pn(pn, rec, got, exp, stage, [r['id'] for r in ordered])
           return True
     # find.*: one cell per Probe row
